@@ -526,7 +526,9 @@ static void caseC02(uint64_t idx, vh::Rng& g)
 		{	// UnionDisjointStates on a shifted / sparse copy of B (precondition: disjoint states)
 			std::map<St, St> m; St off = g.chance(1, 2) ? 64 : 1000003; for (St s : b.states()) m[s] = s * (g.chance(1, 2) ? 1 : 3) + off;
 			std::set<St> img; for (auto& p : m) img.insert(p.second);
-			if (img.size() == m.size())
+			bool disjoint = true; for (St s : a.states()) if (img.count(s)) disjoint = false;   // the precondition, checked on the actual operands
+			if (!disjoint) R->count("uniondisj-skipped(shifted-copy-not-disjoint)");
+			if (img.size() == m.size() && disjoint)
 			{
 				RTA b2 = rm::mapStates(b, m); Aut B2 = mkExpl(b2, ca);
 				R->phase("UnionDisjointStates");
